@@ -259,7 +259,11 @@ class Sim(object):
                        % (self.budget, what, self.state()))
 
     def state(self):
-        return self.provider.state_machine.current_state + 1 if self.provider else None
+        if not self.provider:
+            return None
+        cs = self.provider.state_machine.current_state
+        # (a state machine left without a valid state is reported as such, it must not crash the harness)
+        return cs + 1 if isinstance(cs, int) and not isinstance(cs, bool) else 'invalid(%r)' % (cs,)
 
     def input_pending(self):
         """Bytes / close already handed to the socket that the provider has not read yet."""
